@@ -64,7 +64,7 @@ theorem gapOk_isr (script : Script) : GapOk (isrGap script) :=
   fun _ s h => reach_foldl _ (fun _ e hs => reach_runIsr hs e.2) _ s h
 
 theorem reach_runMItem {s : S} (h : Reach s) (m : MItem) : Reach (runMItem s m) :=
-  reach_callMain (gapOk_isr m.script) m.call h
+  reach_callMain (gapOk_isr m.script) m.call (Reach.setBody m.body m.bret h)
 
 theorem gapOk_thread (script : List (Point × MItem)) : GapOk (threadGap script) :=
   fun _ s h => reach_foldl _ (fun _ e hs => reach_runMItem hs e.2) _ s h
@@ -86,7 +86,7 @@ theorem reach_runItem {s : S} (h : Reach s) (it : Item) : Reach (runItem s it) :
   | thread c script =>
     exact Reach.observe _ (Or.inr rfl) (reach_callSender (gapOk_thread script) 2 (by omega) c
       (Reach.tok _ (Reach.observe _ (Or.inl rfl) (Reach.newItem h))))
-  | quiesce => exact reach_quiesceLoop 64 _ (Reach.noYields (Reach.newItem h))
+  | quiesce => exact reach_quiesceLoop 64 _ (Reach.setBody [] .waiting (Reach.noYields (Reach.newItem h)))
 
 /-- **every state the executable model passes through, in particular the state after any history, is reachable** -/
 theorem reach_runHistory (d : Nat) (kinds : List Kind) (budgets : List Nat) (h1 : 1 ≤ d) (h32 : d ≤ 32) (h : List Item) :
